@@ -29,6 +29,7 @@ type scanResult struct {
 	PointerPrint []string
 	GoSites      []string // functions starting goroutines
 	GoUncovered  []string
+	RunDependent []string // calls whose value changes from one process to the next (seeds, clocks, pids)
 }
 
 func scanMapRanges(scratch string) (*scanResult, error) {
@@ -91,6 +92,22 @@ func scanMapRanges(scratch string) (*scanResult, error) {
 						res.GoSites = append(res.GoSites, fmt.Sprintf("%s (%s:%d)", key, trimPath(pos.Filename), pos.Line))
 						if tab.Goroutines[key] == "" {
 							res.GoUncovered = append(res.GoUncovered, key)
+						}
+					case *ast.CallExpr:
+						if sel, ok := n.Fun.(*ast.SelectorExpr); ok {
+							if id, ok := sel.X.(*ast.Ident); ok {
+								if pn, ok := p.TypesInfo.Uses[id].(*types.PkgName); ok {
+									path := pn.Imported().Path()
+									name := sel.Sel.Name
+									runDep := path == "hash/maphash" || path == "math/rand" || path == "math/rand/v2" || path == "crypto/rand" ||
+										(path == "time" && (name == "Now" || name == "Since")) ||
+										(path == "os" && (name == "Getpid" || name == "Getppid" || name == "Hostname" || name == "Environ"))
+									if runDep {
+										pos := p.Fset.Position(n.Pos())
+										res.RunDependent = append(res.RunDependent, fmt.Sprintf("%s.%s in %s (%s:%d)", path, name, key, trimPath(pos.Filename), pos.Line))
+									}
+								}
+							}
 						}
 					case *ast.BasicLit:
 						if strings.Contains(n.Value, "%p") {
